@@ -109,6 +109,19 @@ CLAIMED = {
              "Tied by semantic reply values (field minima/maxima, 0..N records, DID sizes 1..8, per-DTC size dict) encoded by an independent reference encoder, fed to the real client and to the model.",
         design_ref='DESIGN.md §3 C02',
         technique='Lean 4 proof (list induction over record lists, toBE/fromBE lemmas) + differential correspondence with a reference encoder'),
+    'C03': dict(
+        text="Lean theorems: (A) send_request hands a response object to its caller only for a frame that parses as a valid positive response of the service of the request (first byte = "
+             "request id + 0x40), for every arrival schedule and any number of 0x78 frames (induction over the arrival list); (B) for the simple services a whole client call returns the response "
+             "only if every echo in its data repeats the bytes of the frame that was transmitted (sub-function with bit 7 masked, routine identifier, block sequence counter; the level "
+             "normalisation of SecurityAccess included), stated against the `send` entry of the operation log; (C) for write/IO/dynamically-define/file-transfer/authentication/"
+             "write-memory/read-data and every ReadDTCInformation group: accepted implies each echo position of the wire data equals the transmitted argument (data identifier, control "
+             "parameter, mode of operation, data format at its variable offset, authentication task, format byte / address / size in the transmitted widths, sub-function, memory selection, "
+             "functional group, record numbers incl. the record-number byte of 0x05 / 0x16 replies without any DTC, snapshot DTC number). Tied by an echo-mutation suite on the real client: each "
+             "echoed field of well-formed replies replaced by every other byte value / all bit flips and boundary values (model and client must agree, client must refuse), and all 80 entry points x "
+             "every other first byte.",
+        design_ref='DESIGN.md §3 C03',
+        technique='Lean 4 proof (induction over arrival schedules; accept-implies-echo theorems per client method over a hand-written model) + single-field echo-mutation differential suite over all entry points',
+        note=NOTE + ' The DTC number of extended-data replies (0x06/0x10/0x19) is not compared by the client and is not among the echoes the property lists: mutated and compared with the model, not required.'),
     'C04': dict(
         text="Lean theorems: for every response interpreter and every client-side check (all simple services, ReadDataByIdentifier loop, WriteDataByIdentifier, DynamicallyDefineDataIdentifier, "
              "ReadMemoryByAddress, RequestDownload/Upload, IO control, RequestFileTransfer, Authentication, and all ten ReadDTCInformation response groups incl. the snapshot DID loops, plus "
